@@ -1048,8 +1048,27 @@ class C10(PropertyCheck):
             return None
         return "unknown observation kind"
 
+    @staticmethod
+    def _sublists(n):
+        """index subsets to try, smallest first: singletons, pairs, then drop-one"""
+        if n <= 1:
+            return
+        for i in range(n):
+            yield [i]
+        if n > 2:
+            for i in range(n):
+                for j in range(i + 1, n):
+                    yield [i, j]
+        if n > 3:
+            for i in range(n):
+                yield [k for k in range(n) if k != i]
+
     def shrink(self, case):
         k = case["kind"]
+        if "q" in case and len(case["q"]) > 1 and k != "design":
+            for i in range(len(case["q"])):
+                c = dict(case); c["q"] = [case["q"][i]]
+                yield c
         if k == "design":
             e = case["expr"]
             if e["op"] != "A":
@@ -1058,40 +1077,33 @@ class C10(PropertyCheck):
                         c = dict(case); c["expr"] = e[sub]
                         yield c
             w = case["world"]
-            if len(w["rows"]) > 1:
-                for i in range(len(w["rows"])):
-                    c = dict(case); c["world"] = dict(w, rows=w["rows"][:i] + w["rows"][i + 1:])
-                    yield c
-        elif k in ("events",):
-            n = len(case["times"])
-            for i in range(n):
+            for idx in self._sublists(len(w["rows"])):
+                c = dict(case); c["world"] = dict(w, rows=[w["rows"][i] for i in idx])
+                yield c
+        elif k == "events":
+            for idx in self._sublists(len(case["times"])):
                 c = dict(case)
-                c["times"] = case["times"][:i] + case["times"][i + 1:]
+                c["times"] = [case["times"][i] for i in idx]
                 if case["amps"] is not None:
-                    c["amps"] = case["amps"][:i] + case["amps"][i + 1:]
-                c["split"] = min(case["split"], n - 1)
+                    c["amps"] = [case["amps"][i] for i in idx]
+                c["split"] = min(case["split"], len(idx))
                 yield c
         elif k == "blocks":
-            n = len(case["ivs"])
-            if n > 1:
-                for i in range(n):
-                    c = dict(case)
-                    c["ivs"] = case["ivs"][:i] + case["ivs"][i + 1:]
-                    if case["amps"] is not None:
-                        c["amps"] = case["amps"][:i] + case["amps"][i + 1:]
-                    yield c
+            for idx in self._sublists(len(case["ivs"])):
+                c = dict(case)
+                c["ivs"] = [case["ivs"][i] for i in idx]
+                if case["amps"] is not None:
+                    c["amps"] = [case["amps"][i] for i in idx]
+                yield c
         elif k == "fmri":
             n = len(case["rows"])
-            if n > 2:
-                for i in range(n):
-                    c = dict(case)
-                    c["rows"] = case["rows"][:i] + case["rows"][i + 1:]
-                    pm = [p for p in case["perm"] if p != i]
-                    c["perm"] = [p - (1 if p > i else 0) for p in pm]
-                    yield c
-        if "q" in case and len(case["q"]) > 1 and k != "design":
-            for i in range(len(case["q"])):
-                c = dict(case); c["q"] = case["q"][:i] + case["q"][i + 1:]
+            for idx in self._sublists(n):
+                if len(idx) < 2:
+                    continue
+                c = dict(case)
+                c["rows"] = [case["rows"][i] for i in idx]
+                pm = [p for p in case["perm"] if p in idx]
+                c["perm"] = [idx.index(p) for p in pm]
                 yield c
 
     def classify(self, case, failure):
